@@ -24,7 +24,10 @@ P = {'id': 'C09',
               'uintvector_get_build',
               'uintvector_push_equals_bulk',
               'min0_build_from_u32_get',
-              'min0_build_from_i32_get'],
+              'min0_build_from_i32_get',
+              'min0_push_back_all_paths',
+              'min0_push_all_get',
+              'zip_push_get'],
  'trusted': ['modelled (M+S): src/containers/uint_vec_min0.rs (compute_uintbits, compute_mem_size, get, set/set_uint_bits single-word path, new, resize, '
              'push_back all three paths, build_from_usize) with the byte vector represented as (length, little-endian number); '
              'src/containers/zip_int_vec.rs (new, get, set, build_from_usize/u32, push_back, resize) on top of it; '
@@ -57,9 +60,9 @@ P = {'id': 'C09',
  'level_text': 'Machine-checked Coq theorems about bit-exact Gallina models of the five packed containers. UintVecMin0: for every width <= 58, every '
                'index and every memory content, a field never straddles the 64-bit load window, in-range reads and writes are defined and stay inside the '
                'allocation, a write reads back and leaves every other element unchanged, bulk build returns every element for all sequences whose range '
-               'fits 58 bits, in-place push_back appends without disturbing earlier elements; refutation witness for widths above 58. ZipIntVec: bulk build '
+               'fits 58 bits, push_back on each of its three paths (in place, more memory, rebuild with wider fields) appends without disturbing earlier elements, so construction by push from new(0, max) returns every element; refutation witness for widths above 58. ZipIntVec: bulk build '
                'returns every element for every sequence of u64 values whose range fits 58 bits (also at the top of the usize range), reads past the end '
-               'are refused. SortedUintVec: for every admissible configuration (block sizes 16..256, offset widths 8..32, sample widths 16..57 and 64, both '
+               'are refused; construction by new(0, min, max) + push_back gives the same observations. SortedUintVec: for every admissible configuration (block sizes 16..256, offset widths 8..32, sample widths 16..57 and 64, both '
                'bit-extraction paths) and every sequence, the builder succeeds exactly when the input is sorted, every in-block delta fits offset_width and '
                'every block minimum fits sample_width; then the length is preserved, get(i) returns element i, get2 is two gets, get_block returns the '
                'block followed by zeros, and every index or block index past the end is refused. IntVec<T>: both bit writers OR the masked value in at '
